@@ -328,6 +328,19 @@ theorem extra_pass_observable : ¬ noninterferenceFull := by
   revert this
   decide
 
+/-! ## The error set is keyed by port identity
+
+Port 0's read raises at t=100 (back-off until t>110); at t=101 it is removed and a new port is created under the same
+id — a new identity, here 4, declared last and not existing before.  The next pass (t=102, well inside the old
+back-off window, the entry `(0, 100)` is still there) reads the new port at once and adopts its value. -/
+example :
+    let s0 : State := State.init [mkPort 0 true none (some 5), mkPort 1 true none (some 1), mkPort 2 true none none,
+                                  mkPort 3 true none none, mkPort 4 false none (some 42)]
+    let s := run exP exE s0 [.pass .loop 100, .remove 0, .create 4, .forceEval, .pass .loop 102]
+    s.errs.find? (fun e => e.1 == 0) = some (0, 100) ∧
+    (s.ports[4]?).map (fun q => (q.nrd, q.last)) = some (1, some 42) ∧
+    (s.ports[0]?).map (fun q => (q.enabled, q.nrd)) = some (false, 1) := by decide
+
 /-! ## Instance of `noninterference_full_under_stability` -/
 
 example : Stable exE exH := by
